@@ -7,6 +7,7 @@ import NormModel.Proofs.LiteralsLex
 import NormModel.Proofs.CharString
 import NormModel.Proofs.Floats
 import NormModel.Proofs.CharEscapes
+import NormModel.Proofs.HexFloats
 namespace Norm.C11
 open Norm Spec
 
@@ -123,6 +124,30 @@ example : DecFloat.WF (.frac "1".toList "5".toList (some ⟨'e', some '-', "3".t
   · exact ⟨Or.inr (by decide), by decide, by decide, (by intro y hy; cases hy), by decide⟩
   · exact ⟨Or.inl (by decide), by decide, by decide, (by intro y hy; cases hy), by decide⟩
   · exact ⟨by decide, by decide, ⟨Or.inr rfl, (by intro s hs; cases hs), by decide, by decide⟩, by decide⟩
+
+/-- **A well-formed hexadecimal floating constant** — `0x`/`0X`, `H+`, `H+.`, `H*.H+`, the mandatory binary exponent
+`[pP][+-]?D+`, every suffix of the standard (an `f`/`F` suffix is itself a hexadecimal digit: the code reads it into the
+exponent group, the token is the same) — **becomes one CONSTANT token spanning exactly the constant, with no lexical
+diagnostic**, at any position, whatever follows (within `boundaryOK`). -/
+theorem hexfloat_valid (u : Uni) (k : HexFloat) (hk : k.WF) (rest : List Char) (hb : boundaryOK rest)
+    (s : LexSt) (hr : s.rest = k.render ++ rest) :
+    ∃ s' t, trySubLexers u s = .ok (some (s', t)) ∧ t.type = "CONSTANT" ∧
+      t.value = some (String.ofList k.render) ∧ t.line = s.line ∧ t.col = s.col ∧
+      s'.rest = rest ∧ s'.diags = s.diags :=
+  Norm.hexfloat_valid u k hk rest hb s hr
+
+/-- Non-vacuity: `0x1.8p-3f`, `0X.fP2`, `0xAp10L`; and the malformed sibling `0x1p` gets BAD_EXPONENT (ed0ba8c). -/
+example : HexFloat.WF ⟨'x', "1".toList, some "8".toList, ⟨'p', some '-', "3".toList⟩, "f"⟩ ∧
+    HexFloat.WF ⟨'X', [], some "f".toList, ⟨'P', none, "2".toList⟩, ""⟩ ∧
+    HexFloat.WF ⟨'x', "A".toList, none, ⟨'p', none, "10".toList⟩, "L"⟩ ∧
+    HexFloat.render ⟨'x', "1".toList, some "8".toList, ⟨'p', some '-', "3".toList⟩, "f"⟩ = "0x1.8p-3f".toList ∧
+    ((lex {} "0x1p".toList).toOption.map (fun r => r.diags.map (·.name))) = some ["BAD_EXPONENT"] := by
+  refine ⟨⟨Or.inl rfl, by decide, ⟨by decide, Or.inl (by decide)⟩, ⟨Or.inl rfl, ?_, by decide, by decide⟩, by decide⟩,
+    ⟨Or.inr rfl, by decide, ⟨by decide, Or.inr (by decide)⟩, ⟨Or.inr rfl, ?_, by decide, by decide⟩, by decide⟩,
+    ⟨Or.inl rfl, by decide, (by show "A".toList ≠ []; decide), ⟨Or.inl rfl, ?_, by decide, by decide⟩, by decide⟩, by decide, by decide +kernel⟩
+  · intro s hs; simp at hs; subst hs; exact Or.inr rfl
+  · intro s hs; cases hs
+  · intro s hs; cases hs
 
 /-- **A character constant `pre ' c '`** (pre ∈ {"", L, u, U, u8}; c any character other than the
 quote, the backslash, newline and tab) **becomes one CHAR_CONST token spanning exactly the
